@@ -137,6 +137,10 @@ theorem gen_live_attributes :
     backpropReadsLiveAttributesArctan = true ∧ backpropReadsLiveAttributesSoftplus = true ∧
     backpropReadsLiveAttributesSigmoid = true ∧ backpropReadsLiveAttributesDM = true := by decide
 
+/-- no backprop flattens / reshapes an array in memory order (`order='K'/'A'/'F'`): element pairing never depends on how the
+caller's array happens to be laid out -/
+theorem gen_flatten_order : backpropsFlattenInCOrder = true := by decide
+
 /-- `intensity_backprop` and `from_amp_and_phase_backprop_phase` are the model's formulas -/
 theorem gen_wavefront (Ibar k : K) (E gbar g : Cx K) :
     intensityBack Ibar E = Model.C06.intensityBack Ibar E ∧ phaseBack k gbar g = Model.C06.phaseBack k gbar g ∧
